@@ -102,6 +102,10 @@ func natName(k int) string {
 // prop selects which laws are reported: "C07" (ranking) or "C08" (comparison
 // and its agreement with ranking).
 func CheckUniverse(c *core.Ctx, u *Univ, prop string) {
+	if u == nil {
+		c.Inconclusive("the table of corner universes and the constant rel.NumTyped disagree (harness)")
+		return
+	}
 	n := u.N
 	m := make([][]cell, n)
 	cls := make([]string, n)
